@@ -181,6 +181,11 @@ class C06(SimCheck):
     def tweak(self, r, scn):
         cfg = scn["cfg"]
         scn.pop("shadow", None)          # the baseline runs alone; the beside-* variants add the other simulation
+        scn.pop("between", None)
+        if r.random() < 0.2:
+            # a protocol that lets its k-th refused request (unknown destination, timer in the past) escape
+            scn["escapeAt"] = r.choice([1, 1, 2, 3])
+            scn["profile"]["pBadDst"] = 0.35
         cfg["failRate"] = fbits(r.choice([0.25, 0.5, 0.5, 0.75, 0.0]))
         if cfg["hasMob"] and cfg["duration"] is None and cfg["maxIter"] is None:
             cfg["duration"] = 4096
@@ -266,7 +271,7 @@ class C06(SimCheck):
         return []
 
     def oracle(self, case, impl):
-        fails = self.crash_fail(impl)
+        fails = self.crash_fail(impl) if not case.get("escapeAt") else []
         if case.get("kind") == "ping":
             base = impl["baseline"]["log"]
             for name, v in impl["variants"].items():
